@@ -83,7 +83,7 @@ def run(tier):
             os.remove(npth)
         rc, _, err = C.run_vh(["record", "natcat", npth, "--seed", str(C.seed()), "--pairs", str(pairs), "--triples", str(triples),
                                "--progress", pp, "--skip", str(skip)], check=False, timeout=3000)
-        calls += C.ndjson_read(npth) if os.path.exists(npth) else []
+        calls += C.ndjson_read(npth, tolerate_truncated_tail=(rc != 0)) if os.path.exists(npth) else []
         if rc == 0:
             break
         # the child died (abort / stack overflow / watchdog): the call in the progress file is the culprit;
